@@ -64,7 +64,7 @@ func runC10(r *Run) {
 	}
 	cfg := c10cfg{}
 	cfg.stack = drawBlockingStack(t, []string{"blocking", "queue", "deadline", "fixedpool", "pool"})
-	cfg.waiters = 1 + t.Intn(3, "waiters")
+	cfg.waiters = 1 + t.Intn(scale(3, 5), "waiters")
 	cfg.releases = 1 + t.Intn(cfg.stack.Limit, "releases")
 	r.Mixf("C10 %s waiters=%d releases=%d", cfg.stack, cfg.waiters, cfg.releases)
 
@@ -176,7 +176,7 @@ func runC10(r *Run) {
 func runC10Rich(r *Run) {
 	sc := drawScen(r, scenOpts{
 		kinds: []string{"blocking", "blocking", "deadline", "queue", "queue", "lifo-ctor", "fifo-ctor", "fixedpool", "pool"}, strategies: []string{"simple", "precise"},
-		maxClients: 5, arrivals: []time.Duration{0, 0, ms, 2 * ms}, holds: []time.Duration{0, ms, 2 * ms},
+		maxClients: scale(5, 7), arrivals: []time.Duration{0, 0, ms, 2 * ms}, holds: []time.Duration{0, ms, 2 * ms},
 		qTimeouts: []time.Duration{3 * ms, time.Second, time.Hour}, bTimeouts: []time.Duration{0, 2 * ms, time.Hour},
 		deadlines: []time.Duration{5 * ms, time.Hour}, cancelPct: 25, cancelTimes: []time.Duration{ms, 2 * ms, 3 * ms},
 		backlogs: []int{4}, limits: []int{1, 2}, relTimes: []time.Duration{0, ms, 2 * ms, 3 * ms},
